@@ -105,6 +105,7 @@ func runC17(c *Ctx) {
 	R.Require("C17.tables", 4)
 	R.Require("C17.token", 6)
 	R.Require("C17.escape", 1)
+	R.Require("C17.read", 1)
 	for _, f := range P.ModuleFuncs("json") {
 		R.Funcs[core.QualName(f)] = true
 	}
@@ -181,6 +182,80 @@ func runC17(c *Ctx) {
 	}
 	split := ncr.AnonFuncs[0]
 	checkSplit(c, split)
+
+	// ---- C17.read: end of input is reported only when the scanner is exhausted; after a successful Scan,
+	// io.EOF may only be returned on a path that carries evidence that data was buffered (a non-empty
+	// token test or a non-empty buffer test) - an empty token (a dropped comment with nothing before it)
+	// must lead to another Scan, not to EOF.
+	if rd := P.Func("json", "(*commentReader).Read"); R.Anchor(rd != nil, "C17.read", "json.(*commentReader).Read") {
+		isScan := func(in ssa.Instruction) bool {
+			call, ok := in.(*ssa.Call)
+			return ok && call.Call.StaticCallee() != nil && core.FullName(call.Call.StaticCallee()) == "(*bufio.Scanner).Scan"
+		}
+		evidence := func(iff *ssa.If, succIdx int) bool {
+			a, isCmp := core.AtomOf(core.Guard{Cond: iff.Cond, Pol: succIdx == 0, If: iff})
+			if !isCmp {
+				return false
+			}
+			isLen := strings.HasPrefix(a.L, "len(") || strings.Contains(a.L, ".Len(")
+			if !isLen {
+				return false
+			}
+			return (a.Op == ">" && a.R == "0") || (a.Op == "!=" && a.R == "0") || (a.Op == ">=" && a.R == "1")
+		}
+		n := 0
+		core.EachInstr(rd, func(in ssa.Instruction) {
+			if !isScan(in) {
+				return
+			}
+			call := in.(*ssa.Call)
+			for _, r := range *call.Referrers() {
+				iff, ok := r.(*ssa.If)
+				if !ok {
+					continue
+				}
+				n++
+				bad := ""
+				seen := map[*ssa.BasicBlock]bool{}
+				var walk func(b *ssa.BasicBlock)
+				walk = func(b *ssa.BasicBlock) {
+					if seen[b] || bad != "" {
+						return
+					}
+					seen[b] = true
+					for _, x := range b.Instrs {
+						if isScan(x) {
+							return
+						}
+						if ret, ok := x.(*ssa.Return); ok {
+							if len(ret.Results) == 2 && core.Path(ret.Results[1]) == "io.EOF" {
+								bad = P.InstrPos(ret)
+							}
+							return
+						}
+					}
+					if i2, ok := b.Instrs[len(b.Instrs)-1].(*ssa.If); ok {
+						for k, s2 := range b.Succs {
+							if !evidence(i2, k) {
+								walk(s2)
+							}
+						}
+						return
+					}
+					for _, s2 := range b.Succs {
+						walk(s2)
+					}
+				}
+				walk(iff.Block().Succs[0])
+				R.Check(bad == "", "C17.read", fmt.Sprintf("json|(*commentReader).Read|eof-only-when-exhausted#%d", n), P.InstrPos(call),
+					"after a successful Scan, io.EOF is only returned on paths with evidence that data was buffered; an empty token leads to another Scan",
+					"after a successful Scan that yielded an empty token (a comment with no data in front of it) Read can return io.EOF (at "+bad+") without scanning further: the rest of the document is cut off", nil)
+			}
+		})
+		if n == 0 {
+			R.Unknown("C17.read", "json|(*commentReader).Read|eof-only-when-exhausted", P.Pos(rd.Pos()), "Read no longer branches on bufio.Scanner.Scan", nil)
+		}
+	}
 
 	// ---- C17.escape
 	reach := P.Reachable(split)
@@ -277,8 +352,16 @@ func checkSplit(c *Ctx, split *ssa.Function) {
 		if sl.High == nil {
 			// whole data at EOF with no marker
 			lenOK := core.Path(adv) == "len(data)"
-			R.Check(lenOK, "C17.token", key+"|passthrough", P.InstrPos(r),
-				"without any marker the remaining data passes through unchanged", "the pass-through return does not consume exactly the data it emits", nil)
+			eof := false
+			for _, g := range core.Guards(r.Block()) {
+				a, _ := core.AtomOf(g)
+				if a.LV == ssa.Value(atEOF) && a.Op == "is" {
+					eof = true
+				}
+			}
+			R.Check(lenOK && eof, "C17.token", key+"|passthrough", P.InstrPos(r),
+				"marker-free data passes through unchanged, and only at end of input (a marker may straddle a read boundary)",
+				fmt.Sprintf("the pass-through return is wrong (consumes exactly what it emits: %v, only at end of input: %v): a comment marker split across two reads would be emitted as data", lenOK, eof), nil)
 			continue
 		}
 		var terms []ssa.Value
